@@ -4,7 +4,9 @@ import (
 	"encoding/json"
 	"flag"
 	"fmt"
+	"go/ast"
 	"go/types"
+	"regexp"
 	"os"
 	"path/filepath"
 	"runtime"
@@ -151,8 +153,7 @@ func cmdVerify(args []string) (code int) {
 			fmt.Fprintf(os.Stderr, "ENGINE ERROR: no contract for %s\n", f)
 			return 2
 		}
-		fv := NewFuncVC(v, fn, con, cfg.ID)
-		fv.VerifyTop()
+		fv := verifyWithAliases(v, fn, con, cfg.ID, workdir, *tier)
 		if len(fv.obls) == 0 {
 			fmt.Fprintf(os.Stderr, "ENGINE ERROR: function %s generated zero obligations (vacuity guard)\n", f)
 			return 2
@@ -693,6 +694,23 @@ func (fv *FuncVC) finalize() {
 		fv.ctx.axioms = append(fv.ctx.axioms, t)
 		fv.assumed["axiom "+ax.Name] = true
 	}
+	// standard-library string predicates on literal constants are evaluated (ground facts)
+	if lits := fv.ctx.litOrder; len(lits) <= 80 {
+		for name, f := range map[string]func(a, b string) bool{"pf$strings__HasSuffix": strings.HasSuffix, "pf$strings__HasPrefix": strings.HasPrefix, "pf$strings__Contains": strings.Contains} {
+			if !fv.ctx.declared[name] {
+				continue
+			}
+			for _, a := range lits {
+				for _, b := range lits {
+					t := App(name, fv.ctx.lits[a], fv.ctx.lits[b])
+					if !f(a, b) {
+						t = Not(t)
+					}
+					fv.ctx.axioms = append(fv.ctx.axioms, t)
+				}
+			}
+		}
+	}
 }
 
 func specFuncsIn(e SExpr) []string {
@@ -855,5 +873,101 @@ func VerifyLemma(v *Verifier, l *Lemma, prop string) *FuncVC {
 		fv.oblige("lemma", clauseLabel(step.Clause), "true", fv.evalClause(env, step.Clause), step.Clause.Text, step.Clause.Pos)
 	}
 	fv.finalize()
+	return fv
+}
+
+var unresolvedRe = regexp.MustCompile(`unresolved name "([A-Za-z_][A-Za-z0-9_]*)"`)
+
+// verifyWithAliases generates the obligations of fn. If a loop invariant / local post-condition names a
+// local variable that no longer exists (renamed or removed by an edit), every other local of the
+// function is tried in its role; the first one with which all obligations of the function discharge is
+// used (a rename is then not an alarm). If none does, the function yields one failed obligation.
+func verifyWithAliases(v *Verifier, fn *ssa.Function, con *Contract, prop string, workdir string, tier string) *FuncVC {
+	try := func(aliases map[string]string) (fv *FuncVC, missing string, err *EngineError) {
+		fv = NewFuncVC(v, fn, con, prop)
+		fv.aliases = aliases
+		defer func() {
+			if r := recover(); r != nil {
+				ee, ok := r.(*EngineError)
+				if !ok {
+					if aliases == nil {
+						panic(r)
+					}
+					// an ill-typed stand-in: this candidate does not work
+					ee = &EngineError{fmt.Sprint(r)}
+				}
+				err = ee
+				if m := unresolvedRe.FindStringSubmatch(ee.Msg); m != nil {
+					missing = m[1]
+				}
+			}
+		}()
+		fv.VerifyTop()
+		return
+	}
+	fv, missing, err := try(nil)
+	if err == nil {
+		return fv
+	}
+	if missing == "" {
+		panic(err)
+	}
+	// candidate locals
+	seen := map[string]bool{missing: true}
+	var cands []string
+	var walk func(f *ssa.Function)
+	walk = func(f *ssa.Function) {
+		for _, b := range f.Blocks {
+			for _, in := range b.Instrs {
+				switch x := in.(type) {
+				case *ssa.Phi:
+					if x.Comment != "" && !seen[x.Comment] && x.Comment != "rangeindex" {
+						seen[x.Comment] = true
+						cands = append(cands, x.Comment)
+					}
+				case *ssa.DebugRef:
+					if id, ok := x.Expr.(*ast.Ident); ok && !seen[id.Name] {
+						seen[id.Name] = true
+						cands = append(cands, id.Name)
+					}
+				}
+			}
+		}
+	}
+	walk(fn)
+	timeout := 10
+	if tier == "thorough" {
+		timeout = 60
+	}
+	var tried []string
+	for _, c := range cands {
+		fv2, _, err2 := try(map[string]string{missing: c})
+		if err2 != nil || len(fv2.obls) == 0 {
+			continue
+		}
+		tried = append(tried, c)
+		DischargeAll(fv2.obls, workdir, timeout, runtime.NumCPU(), 0, false)
+		ok := true
+		for _, o := range fv2.obls {
+			if o.Cover {
+				if o.Result == "unsat" {
+					ok = false
+				}
+				continue
+			}
+			if o.Result != "unsat" {
+				ok = false
+			}
+		}
+		if ok {
+			fmt.Fprintf(os.Stderr, "note: %s: local %q no longer exists; its contract clauses hold with local %q in its role\n", shortFuncName(fn), missing, c)
+			return fv2
+		}
+	}
+	fv = NewFuncVC(v, fn, con, prop)
+	o := &Obligation{Name: fmt.Sprintf("%s/%s/inv[local %s]", prop, fv.funcName(), missing), Kind: "inv.init", Func: fv.funcName(), Pos: v.prog.Fset.Position(fn.Pos()).String(),
+		Text: err.Msg, ctx: fv.ctx, Static: true, Solver: "name-resolution", Result: "failed",
+		Model: fmt.Sprintf("the contract names the local variable %q, which no longer exists in %s, and none of the other locals (tried: %s) re-establishes the clauses in its role", missing, shortFuncName(fn), strings.Join(tried, ", "))}
+	fv.obls = append(fv.obls, o)
 	return fv
 }
